@@ -24,8 +24,45 @@ def _machine_constant(e):
     return None
 
 
+NORM_LIKE = ('norm', 'squaredNorm', 'stableNorm', 'lpNorm', 'cwiseAbs', 'abs', 'maxCoeff', 'sum')
+
+
+def _magnitude(e):
+    """does e read as the magnitude of a data quantity: x.norm(), x.squaredNorm(), fabs(x), x.cwiseAbs().maxCoeff() ..."""
+    e = strip_casts(e) if e is not None else None
+    if e is None:
+        return False
+    if e.get('k') == 'MCall' and e.get('m') in NORM_LIKE:
+        return True
+    if e.get('k') == 'Call' and (e.get('fn') or '').split('::')[-1] in ('abs', 'fabs', 'hypot'):
+        return True
+    return False
+
+
+def _scaled_constant(e):
+    """a positive floating constant possibly multiplied by counts (sizes, integers): text, else None"""
+    e = strip_casts(e) if e is not None else None
+    if e is None:
+        return None
+    cv = const_value(e)
+    if isinstance(cv, float) and cv > 0:
+        return pp(e)
+    if e.get('k') == 'Bin' and e.get('op') == '*':
+        for a_, b_ in ((e.get('l'), e.get('r')), (e.get('r'), e.get('l'))):
+            ca = const_value(a_)
+            if (isinstance(ca, float) and ca > 0) or _machine_constant(a_):
+                tb = ((strip_casts(b_) or {}).get('t') or {})
+                if tb.get('c') == 'int' or const_value(b_) is not None:
+                    return pp(e)
+    return None
+
+
 def is_tolerance_test(cond):
     for y in walk(cond):
+        if y.get('k') == 'Bin' and y.get('op') in ('<', '<=') and _magnitude(y.get('l')) and _scaled_constant(y.get('r')):
+            return 'a comparison of a magnitude with the absolute constant %s' % _scaled_constant(y.get('r'))
+        if y.get('k') == 'Bin' and y.get('op') in ('>', '>=') and _magnitude(y.get('r')) and _scaled_constant(y.get('l')):
+            return 'a comparison of a magnitude with the absolute constant %s' % _scaled_constant(y.get('l'))
         if y.get('k') == 'Bin' and y.get('op') in ('<', '<=') and _machine_constant(y.get('r')):
             return 'a comparison with the absolute constant %s' % _machine_constant(y.get('r'))
         if y.get('k') == 'Bin' and y.get('op') in ('>', '>=') and _machine_constant(y.get('l')):
